@@ -134,6 +134,22 @@ Theorem C13_decode_var_any : forall s size n payload r c d s',
 Proof. exact memory_from_source_var_any. Qed.
 Print Assumptions C13_decode_var_any.
 
+(* decoding into a buffer: the payload is APPENDED to the filled region (the read position and everything filled before stay), the
+   stream continues right behind the frame; with too little free space the call fails and the buffer is exactly as it was *)
+Theorem C13_decode_into_buffer : forall k s b n payload r c s' b',
+  k <> LVar -> n <= lk_max k -> N.of_nat (length payload) = n -> bb_inv b ->
+  s_stream s = lenp_prefix k n ++ payload ++ r ->
+  lenp_buffer_from_source k s b = Some (DOk c, s', b') ->
+  c = n /\ bb_filled b' = bb_filled b ++ payload /\ bb_offset b' = bb_offset b /\ bb_size b' = bb_size b /\ s_stream s' = r /\ bb_inv b'.
+Proof. exact buffer_from_source_fixed. Qed.
+Print Assumptions C13_decode_into_buffer.
+Theorem C13_decode_into_buffer_enomem : forall k s b n payload r rc s' b',
+  k <> LVar -> n <= lk_max k -> s_stream s = lenp_prefix k n ++ payload ++ r -> bb_avail b < n ->
+  lenp_buffer_from_source k s b = Some (rc, s', b') ->
+  (forall c, rc <> DOk c) /\ b' = b.
+Proof. exact buffer_from_source_enomem. Qed.
+Print Assumptions C13_decode_into_buffer_enomem.
+
 (* every entry point returns, whatever the drivers do (the model's fuel never runs out) *)
 Theorem C13_encoders_return : forall k snk0,
   (forall xs n, lenp_memory_to_sink k snk0 xs n <> None) /\
